@@ -73,8 +73,27 @@ def reachable_set(facts):
     return seen
 
 
+KEEP = {"self", "as", "usize", "u8", "u16", "u32", "u64", "isize", "i32", "i64", "unwrap", "unwrap_err", "expect", "len", "pop", "map", "assert_eq"}
+
+
+def alpha(s):
+    """alpha-rename identifiers by order of first occurrence, so that renaming a variable or a field does not
+    change a site's key while any change of the expression's structure does"""
+    names = {}
+
+    def sub(m):
+        w = m.group(0)
+        if w in KEEP or w[0].isdigit():
+            return w
+        if w not in names:
+            names[w] = "$%d" % (len(names) + 1)
+        return names[w]
+
+    return re.sub(r"[A-Za-z_][A-Za-z0-9_]*", sub, s)
+
+
 def norm_snip(s):
-    return re.sub(r"\s+", " ", s or "").strip()[:160]
+    return alpha(re.sub(r"\s+", " ", s or "").strip()[:160])
 
 
 def sites_of(body):
